@@ -157,6 +157,20 @@ impl Shape {
             Shape::Or(a, b) => !a.has_not() && !b.has_not() && a.or_safe() && b.or_safe(),
         }
     }
+    /// Shapes for which full-fragment markers cannot lead to "full fragment minus partial bitmap"
+    /// (a 2^32-row materialisation) inside the mask operators: OR nodes combine NOT-free subtrees
+    /// and no NOT is applied to a subtree that itself contains a NOT (`!` of a two-list mask
+    /// computes allow - block).
+    pub fn marker_safe(&self) -> bool {
+        fn no_nested_not(s: &Shape) -> bool {
+            match s {
+                Shape::Leaf => true,
+                Shape::Not(a) => !a.has_not(),
+                Shape::And(a, b) | Shape::Or(a, b) => no_nested_not(a) && no_nested_not(b),
+            }
+        }
+        self.or_safe() && no_nested_not(self)
+    }
     pub fn has_op(&self) -> bool {
         !matches!(self, Shape::Leaf)
     }
